@@ -323,8 +323,13 @@ def run(ctx):
     if p.returncode != 0:
         raise InfraError("the host schema is not accepted by check-express (harness input wrong): %s" % p.stderr[:400])
     nexpr = 0
-    widths = [[], ["-l", "40"], ["-c"]] if ctx.quick else [[], ["-l", "10"], ["-l", "20"], ["-l", "40"], ["-l", "75"], ["-l", "200"], ["-l", "99999"], ["-t"], ["-c"],
-                                                              ["-c", "-t"], ["-c", "-l", "20"], ["-t", "-l", "40"], ["-c", "-t", "-l", "99999"]]
+    # the option space comes from spec/PrintOpts.tla: every line length from 8 to 48 and samples beyond, x -t x -c
+    osets = []
+    go = tlc.run_tlc("PrintOpts", None, workers=2, timeout=300, on_case=osets.append,
+                     cfg_text="CONSTANTS Deep = %s\nINIT Init\nNEXT Next\nINVARIANT Emit\n" % ("FALSE" if ctx.quick else "TRUE"))
+    if go.rc != 0 or go.errors or not osets:
+        raise InfraError("PrintOpts failed: %s" % go.tail[-10:])
+    widths = sorted((["-c"] if o["c"] else []) + (["-t"] if o["t"] else []) + (["-l", str(o["len"])] if o["len"] else []) for o in osets)
     for wi, opts in enumerate(widths):
         tagw = "-".join(opts) or "default"
         rc, err, out = run_exppp(bdir, src, os.path.join(wd, "w%d" % wi), opts)
@@ -378,9 +383,10 @@ def run(ctx):
         s = os.path.join(wd, "f%d.exp" % i)
         txt = express.render(c["schema"])
         open(s, "w").write(txt)
-        rc, err, out = run_exppp(bdir, s, os.path.join(wd, "fam%d" % i), [])
+        fopts = widths[(7 * i) % len(widths)]       # the option sets rotate through the family
+        rc, err, out = run_exppp(bdir, s, os.path.join(wd, "fam%d" % i), fopts)
         nd += 1
-        key0 = json.dumps(c["choice"], sort_keys=True)
+        key0 = json.dumps(c["choice"], sort_keys=True) + ("|" + "-".join(fopts) if fopts else "")
         if rc != 0 or out is None:
             ctx.violation("exppp-failed|" + key0, "exppp rc=%s on a valid schema: %s" % (rc, err[-200:]), {"input": txt})
             continue
